@@ -85,7 +85,8 @@ Survives(c, p) == CASE c.op.name = "oob" -> InsideOOB(c, p)
 
 After(c, p) == IF c.op.name = "trim" THEN [p EXCEPT !.x = TrimX(c.op, p)] ELSE p
 
-Ambiguous(c) == CASE c.op.name = "oob" -> c.op.kind = "whole" /\ c.op.box % 2 = 1     \* "the box of the given size"
+\* (box sizes of either parity: the half-width is ceil(box/2) voxels, the convention DESIGN adopts for 'whole')
+Ambiguous(c) == CASE c.op.name = "oob" -> FALSE
                   [] c.op.name = "trim" -> FALSE
                   [] c.op.name = "points" -> FALSE    \* on the lattice a tie (distance = r) is exact: "within the radius" removes it
                   [] c.op.name = "mask" -> \E k \in DOMAIN c.ps : MaskAmbiguous(c.op, c.ps[k])
@@ -160,6 +161,11 @@ C09_WholeImpliesCenter ==
             Case.ps[k].id \in KeptIds =>
                 /\ InsideOOB([Case EXCEPT !.op.kind = "center"], Case.ps[k])
                 /\ (Case.op.box >= 2 => InsideOOB([Case EXCEPT !.op.box = Case.op.box - 2], Case.ps[k]))
+
+\* Frame condition: the particle list a call starts from, the dimension table, the point tables, the tomogram and
+\* mask lists are the case (cs); no call changes them.  (Observed counterpart in the driver: mbt/argguard.py snapshots
+\* of every argument object, of the list a non-inplace call was made on and of the results of earlier calls.)
+C09_ArgumentsUntouched == [][cs' = cs]_vars
 
 \* the storage form of the masks is an attribute of the call only: it never changes which particles survive
 MaskForms == {"array", "em", "mrc", "rec", "mixed"}
